@@ -119,6 +119,39 @@ func c10(args []string) {
 		}
 		jobs = append(jobs, &job{s, exp, Cfg{Buf: []int{1, 3, 128}[rep%3], Procs: []int{1, 2, 4}[rep%3], Sched: fmt.Sprintf("%d,300,600", rng.Intn(1<<30))}})
 	}
+	// directed shape: parameter ports that do not appear in the command pattern (created by InParam(name) only; the
+	// value is used in the SetOut pattern): their values belong to the task's record like any other parameter,
+	// also in the nested Upstream copies downstream; command and Go-function variants
+	for rep := 0; rep < c.Pick(3, 9); rep++ {
+		n := 2 + rep%2
+		s := &spec.Spec{Name: fmt.Sprintf("hiddenparam%d", rep), MaxTasks: 4, Sources: map[string]string{}}
+		in := []spec.PortDecl{{Name: "in"}}
+		o1 := []spec.PortDecl{{Name: "out"}}
+		src := &spec.Proc{Name: "src", Kind: spec.KFileSource}
+		var labs, runs []string
+		for i := 0; i < n; i++ {
+			f := fmt.Sprintf("h%d.txt", i)
+			src.Files = append(src.Files, f)
+			s.Sources[f] = f + "\n"
+			labs = append(labs, fmt.Sprintf("lab%d", i))
+			runs = append(runs, fmt.Sprintf("%d", 7+i))
+		}
+		kind := spec.KCmd
+		if rep%3 == 2 {
+			kind = spec.KGoFunc
+		}
+		h := &spec.Proc{Name: "H", Kind: kind, Cmd: spec.BuildCmd("H", in, o1, []string{"vis"}, nil, nil),
+			Outs:  []*spec.Out{{Port: "out", Pattern: "hp/{i:in|basename}.{p:lab}.r{p:run}.out"}},
+			Feeds: []*spec.Feed{{Port: "lab", How: "str", Values: labs}, {Port: "vis", How: "str", Values: labs}}}
+		s.Procs = append(s.Procs, src, h, &spec.Proc{Name: "PS", Kind: spec.KParamSource, Values: runs},
+			&spec.Proc{Name: "D", Kind: spec.KCmd, Cmd: spec.BuildCmd("D", in, o1, nil, nil, nil)})
+		s.Conns = append(s.Conns, &spec.Conn{From: "src.out", To: "H.in"}, &spec.Conn{From: "PS.out", To: "H.run", Param: true}, &spec.Conn{From: "H.out", To: "D.in"})
+		exp := evalRef(s, nil)
+		if exp.Err != "" {
+			c.Broken("reference cannot evaluate the hidden-parameter shape: " + exp.Err)
+		}
+		jobs = append(jobs, &job{s, exp, Cfg{Buf: []int{1, 3, 128}[rep%3], Procs: []int{1, 2, 4}[rep%3], NoHooks: rep%2 == 0}})
+	}
 	// directed shape: in-memory tags of a component output (Concatenator with GroupByTag) through a second MapToTags
 	for rep := 0; rep < c.Pick(3, 12); rep++ {
 		n := 2 + rep%3
